@@ -142,10 +142,27 @@ pub fn query_packet<'a>(h: &'a Hist) -> Result<Packet<'a>, Fail> {
 fn check(h: &Hist, case: &mut Case) -> Result<(), Fail> {
     let mut store = ResourceRecordManager::new();
     let mut model = Model::default();
-    for op in &h.ops {
+    // "every set of registered records and every query": the statement holds at every point of a history, and a
+    // query must not leave anything behind that changes a later answer. In every other history the same query is
+    // therefore also put after each operation (the verdict against the model as it stands at that point), the
+    // final verdict comes last as before.
+    let probe_between = h.id % 2 == 0 && h.ops.len() >= 2;
+    for (i, op) in h.ops.iter().enumerate() {
         apply_to_store(&mut store, op)?;
         model.apply(op);
+        if probe_between && i + 1 < h.ops.len() {
+            let mut scratch = Case::default();
+            verdict(h, &store, &model, &mut scratch).map_err(|f| Fail::new(f.sig, format!("asked after operation #{} of {}: {}", i + 1, h.ops.len(), f.msg)))?;
+            case.extra_evals += 1;
+        }
     }
+    if probe_between {
+        case.class("probed-between-operations");
+    }
+    verdict(h, &store, &model, case)
+}
+
+fn verdict(h: &Hist, store: &ResourceRecordManager<'static>, model: &Model, case: &mut Case) -> Result<(), Fail> {
     // non-trivial: a question name shares a concatenation or a byte prefix with a different registered name
     let cat = |n: &AName| -> Vec<u8> { n.0.iter().rev().flat_map(|l| l.0.clone()).collect() };
     case.nontrivial = !model.recs.is_empty()
@@ -184,7 +201,7 @@ fn check(h: &Hist, case: &mut Case) -> Result<(), Fail> {
         }
     }
     let query = query_packet(h)?;
-    let reply = lib("build_reply", || build_reply(query, &store).map(|(p, u)| (observe(&p), u)))?;
+    let reply = lib("build_reply", || build_reply(query, store).map(|(p, u)| (observe(&p), u)))?;
     match &reply {
         None => {
             case.class("no-reply");
